@@ -71,6 +71,16 @@ pub fn judge(ctx: &mut Ctx, b: &[u8], tag: &str) {
             _ => {}
         }
     }
+    // the same decode on a fresh thread with a modest stack, in its body and from thread-local
+    // destructors while it is torn down
+    if ctx.tier != Tier::Miri && b.len() <= 4096 && ctx.rng.chance(1, 64) {
+        let o = Some(SOpts::from_index((ctx.rng.below(8)) as u8));
+        let direct = exec::decode_msg(b, o, Rk::Slice).out;
+        if !direct.abnormal() {
+            let b2 = b.to_vec();
+            thread_env_check(ctx, "C01", &direct, move || exec::decode_msg(&b2, o, Rk::Slice).out, w_input(b, o));
+        }
+    }
     // step budget (termination witness) through the contract reader, one option set per input
     let o = Some(SOpts::from_index((ctx.rng.below(8)) as u8));
     let run = exec::decode_msg(b, o, Rk::ContractSlice);
